@@ -19,7 +19,22 @@ func KnownFuncs() map[string]bool {
 	for _, l := range strings.Split(knownFuncsText, "\n") {
 		l = strings.TrimSpace(l)
 		if l != "" && !strings.HasPrefix(l, "#") {
-			m[l] = true
+			key, _, _ := strings.Cut(l, "\t")
+			m[key] = true
+		}
+	}
+	return m
+}
+
+// KnownSigs returns the recorded signature of every known top-level function.
+func KnownSigs() map[string]string {
+	m := map[string]string{}
+	for _, l := range strings.Split(knownFuncsText, "\n") {
+		l = strings.TrimSpace(l)
+		if l != "" && !strings.HasPrefix(l, "#") {
+			if key, sig, ok := strings.Cut(l, "\t"); ok {
+				m[key] = sig
+			}
 		}
 	}
 	return m
